@@ -54,7 +54,9 @@ CHECKS = {
  "C05": ("model_checking",
          "Same Node scripts: for every DeleteTip the sorted database dump after apply+delete must equal the dump before the apply (finalized marker, temp blocks, data pruned below finality excluded; state diffs compared as sets), "
          "saved temp blocks must be retrievable, restart must land on the same state, and a chain reached through apply/delete detours must equal the same chain built directly on a fresh node. "
-         "The revert-diff mechanics are additionally checked at key level (created/overwritten/deleted in one commit, empty values) through the StagedStore trace monitor (commit / revert steps).",
+         "The revert-diff mechanics are additionally checked at key level (created/overwritten/deleted in one commit, empty values) through the StagedStore trace monitor (commit / revert steps). "
+         "ChainStore.tla specifies the block store (Chain + DataAccess + cache) as a sequential object: after any add / remove / clear-temp / restart sequence every reader (tip, by height, by id, bulk lookups, transactions, events with the retention rule, "
+         "temporary blocks, finalized marker) is a function of the logical chain; TLC scripts are replayed on the real store with a block cache of 2, 3 and 515 blocks (5.8 M reader answers per quick run).",
          "Toy application; blocks with/without transactions, validator-set change, aggregate commits, finality advances; scripts sampled by TLC simulation.",
          "TLC-generated apply/delete/restart scripts replayed on the real Executer with database-dump equality + TLA+ trace monitor of diff reversal", "DESIGN.md section 4 C05"),
  "C08": ("model_checking",
